@@ -17,6 +17,7 @@ import (
 	"strconv"
 	"strings"
 	"sync"
+	"syscall"
 	"testing"
 	"time"
 
@@ -322,6 +323,15 @@ var WatchdogSeconds = 20
 
 const ExitSuspect = 97
 
+// cpuTime is the CPU time (user + system) this process has used so far.
+func cpuTime() time.Duration {
+	var ru syscall.Rusage
+	if syscall.Getrusage(syscall.RUSAGE_SELF, &ru) != nil {
+		return 0
+	}
+	return time.Duration(ru.Utime.Nano() + ru.Stime.Nano())
+}
+
 func writeReplay(path string, caseJSON []byte, o *Outcome, note string) {
 	if path == "" {
 		return
@@ -352,20 +362,38 @@ func (p *Prop[C]) Eval(tb TB, c C) Outcome {
 	if p.Journal {
 		journal(caseJSON)
 	}
-	var timer *time.Timer
+	var stopWatch chan struct{}
 	if WatchdogSeconds > 0 {
-		timer = time.AfterFunc(time.Duration(WatchdogSeconds)*time.Second, func() {
-			o := Outcome{Violation: fmt.Sprintf("case did not return within %d s", WatchdogSeconds), Signature: "timeout"}
-			writeReplay(os.Getenv("VERIF_SUSPECT"), caseJSON, &o, "watchdog suspect")
-			fmt.Fprintf(os.Stderr, "SUSPECT-TIMEOUT property=%s\n", propID)
-			Flush()
-			os.Exit(ExitSuspect)
-		})
+		// A case is a suspect when it has burnt WatchdogSeconds/2 of CPU time and WatchdogSeconds of
+		// wall time without returning (a loop), or has not returned after six times the limit (a
+		// deadlock). Wall time alone would accuse cheap cases on a loaded machine.
+		stopWatch = make(chan struct{})
+		start, cpu0 := time.Now(), cpuTime()
+		go func() {
+			tick := time.NewTicker(time.Second)
+			defer tick.Stop()
+			for {
+				select {
+				case <-stopWatch:
+					return
+				case <-tick.C:
+				}
+				wall := time.Since(start)
+				limit := time.Duration(WatchdogSeconds) * time.Second
+				if (wall >= limit && cpuTime()-cpu0 >= limit/2) || wall >= 6*limit {
+					o := Outcome{Violation: fmt.Sprintf("case did not return within %v (cpu %v)", wall.Round(time.Second), (cpuTime() - cpu0).Round(time.Second)), Signature: "timeout"}
+					writeReplay(os.Getenv("VERIF_SUSPECT"), caseJSON, &o, "watchdog suspect")
+					fmt.Fprintf(os.Stderr, "SUSPECT-TIMEOUT property=%s\n", propID)
+					Flush()
+					os.Exit(ExitSuspect)
+				}
+			}
+		}()
 	}
 	var o Outcome
 	pv := Guard(func() { o = p.Check(c) })
-	if timer != nil {
-		timer.Stop()
+	if stopWatch != nil {
+		close(stopWatch)
 	}
 	if pv != nil {
 		if pv.KinFunc == "" {
